@@ -69,6 +69,8 @@ pub open spec fn into_vcell<T: Into<VCell>>(x: T) -> VCell { <T as vstd::std_spe
 pub open spec fn into_obeys<T: Into<VCell>>() -> bool { <T as vstd::std_specs::convert::IntoSpec<VCell>>::obeys_into_spec() }
 /// the two views the opaque-heap groups (builtins, cont, compile, ...) reason with, defined on the real representation
 pub open spec fn m_deref(h: Heap, c: VCell) -> VCell { match c { VCell::Ptr(p) => if p < h.len() { h.cells()[p as int] } else { VCell::Undefined }, _ => c } }
+/// the cell a Cow argument carries
+pub open spec fn cow_val(c: std::borrow::Cow<VCell>) -> VCell { match c { std::borrow::Cow::Borrowed(b) => *b, std::borrow::Cow::Owned(o) => o } }
 /// what the opaque-heap groups take as an axiom (axiom_deref_immediate): a cell that is not a pointer designates itself
 pub proof fn lemma_m_deref_immediate(h: Heap, c: VCell) ensures !(c is Ptr) ==> m_deref(h, c) == c {}
 pub open spec fn m_live(h: Heap, c: VCell) -> bool { c matches VCell::Ptr(p) && p < h.len() && h.state(p as int) != 0 }
@@ -376,6 +378,13 @@ UNITS = [{
                 (H, '!(into_vcell(vcell) is Symbol) && !(into_vcell(vcell) is Ptr) && !is_immediate(into_vcell(vcell)) ==> (r matches VCell::Ptr(p) && fresh_cell(*old(self), *final(self), p as int) && final(self).cells()[p as int] == into_vcell(vcell))'),
                 (H, 'into_vcell(vcell) is Ptr ==> r == into_vcell(vcell) && final(self).cells() == old(self).cells() && final(self).gcmap() == old(self).gcmap()'),
             ],
+        },
+        # Heap::get: what a cell designates (the text the opaque-heap groups assume as `heap_deref`, here over m_deref)
+        'impl Heap::get': {
+            'props': H + ['C14', 'C06'],
+            'requires': ['<T as vstd::std_specs::convert::IntoSpec<std::borrow::Cow<VCell>>>::obeys_into_spec()',
+                         'cow_val(<T as vstd::std_specs::convert::IntoSpec<std::borrow::Cow<VCell>>>::into_spec(vcell)) matches VCell::Ptr(p) ==> p < self.len()'],
+            'ensures': [(H + ['C14'], '<T as vstd::std_specs::convert::IntoSpec<std::borrow::Cow<VCell>>>::obeys_into_spec() ==> r == m_deref(*self, cow_val(<T as vstd::std_specs::convert::IntoSpec<std::borrow::Cow<VCell>>>::into_spec(vcell)))')],
         },
         'impl Heap::get_at_index': {
             'props': H + ['C06'], 'requires': ['ptr < self.len()'],
